@@ -7,6 +7,7 @@ import (
 	"context"
 	"errors"
 	"fmt"
+	"log/slog"
 	"sort"
 	"strings"
 	"sync"
@@ -20,6 +21,7 @@ import (
 	"github.com/libp2p/go-libp2p/core/peer"
 	"github.com/libp2p/go-libp2p/core/peerstore"
 	"github.com/libp2p/go-libp2p/core/record"
+	logging "github.com/libp2p/go-libp2p/gologshim"
 	"github.com/libp2p/go-libp2p/p2p/host/eventbus"
 	"github.com/libp2p/go-libp2p/p2p/host/peerstore/pstoremem"
 	"github.com/libp2p/go-libp2p/p2p/protocol/identify"
@@ -34,6 +36,8 @@ import (
 )
 
 func TestMain(m *testing.M) {
+	// identify logs every rejected key / record at error level; keep the shard logs readable
+	logging.SetDefaultHandler(slog.DiscardHandler)
 	stats.Describe("exploration",
 		"A real identify service (identify.NewIDService) runs on a fake host with a real pstoremem peerstore and event bus inside a synctest bubble; "+
 			"the harness is the remote peer p on up to four fake connections (own non-loopback /24 each; public, private or unroutable remote address) and plays "+
@@ -189,21 +193,21 @@ func drawScenario(rt *rapid.T) *scenario {
 				open = append(open, c)
 			}
 		}
-		var choices []stepKind
+		var choices []stepKind // rapid favours small indices: pushes first
+		if i > 0 {
+			if len(open) > 0 {
+				choices = append(choices, stPush, stPush, stClose, stPush, stPush, stClose)
+			}
+			choices = append(choices, stSleep, stSleep)
+		}
 		if len(status) < maxConns {
 			choices = append(choices, stOpen)
 			if len(open) == 0 {
 				choices = append(choices, stOpen, stOpen)
 			}
 		}
-		if i > 0 {
-			if len(open) > 0 {
-				choices = append(choices, stPush, stPush, stPush, stPush, stClose, stClose)
-			}
-			choices = append(choices, stSleep, stSleep)
-			if len(all) > 0 {
-				choices = append(choices, stWait)
-			}
+		if i > 0 && len(all) > 0 {
+			choices = append(choices, stWait)
 		}
 		if len(choices) == 0 {
 			break
@@ -216,8 +220,8 @@ func drawScenario(rt *rapid.T) *scenario {
 			st.conn = len(status)
 			status = append(status, 1)
 			st.remoteClass = []int{rcPublic, rcPublic, rcPrivate, rcPrivate, rcUnroutable}[rapid.IntRange(0, 4).Draw(rt, label+"-remoteClass")]
-			st.limited = rapid.IntRange(0, 5).Draw(rt, label+"-limited") == 0
-			st.lateConnected = rapid.IntRange(0, 7).Draw(rt, label+"-lateConnected") == 0
+			st.limited = rapid.IntRange(0, 5).Draw(rt, label+"-limited") == 4
+			st.lateConnected = rapid.IntRange(0, 7).Draw(rt, label+"-lateConnected") == 5
 			st.newStream = []int{nsOK, nsOK, nsOK, nsOK, nsOK, nsOK, nsOK, nsOK, nsOK, nsOK, nsOK, nsOK, nsError, nsBlock, nsDelay, nsDelay}[rapid.IntRange(0, 15).Draw(rt, label+"-newStream")]
 			if st.newStream == nsDelay {
 				st.nsDelay = []time.Duration{time.Millisecond, T / 2, T - time.Millisecond}[rapid.IntRange(0, 2).Draw(rt, label+"-nsDelay")]
@@ -1008,7 +1012,7 @@ func (r *runner) run() {
 
 func TestIdentifyAttribution(t *testing.T) {
 	name := t.Name()
-	hx.Check(t, 2400, 80000, 0, func(rt *rapid.T) {
+	hx.Check(t, 4000, 300000, 0, func(rt *rapid.T) {
 		sc := drawScenario(rt)
 		r := &runner{t: t, rt: rt, sc: sc, w: sc.w, T: sc.timeout, allowed: map[string]struct{}{}, protos: map[string]struct{}{},
 			lastZero: -1, labels: map[string]struct{}{}}
